@@ -995,6 +995,8 @@ impl Xot {
                 // remove the text node we wanted to insert as it's now consolidated
                 // we can always remove text nodes safely.
                 self.remove_dangerously(node);
+                // the text now borders on the next node too
+                self.remove_consolidate_text_nodes(Some(prev_node), next_node);
                 true
             } else {
                 false
